@@ -134,7 +134,12 @@ class Inliner(object):
     if fi is None:
       return False
     inlined = []
-    node.body = self._block(node.body, fi, [fi.key], inlined, 0)
+    outer = getattr(self, '_cur_locals', None)
+    self._cur_locals = _locals_of(node) | (outer or set())
+    try:
+      node.body = self._block(node.body, fi, [fi.key], inlined, 0)
+    finally:
+      self._cur_locals = outer if outer is not None else set()
     if inlined:
       node._inlined_from = sorted(set(inlined) | set(getattr(node, '_inlined_from', ())))
     return bool(inlined) or bool(getattr(node, '_nested_changed', False))
@@ -162,7 +167,12 @@ class Inliner(object):
         sub = []
         nfi = self._fi_of(s)
         if nfi is not None:
-          s.body = self._block(s.body, nfi, [nfi.key], sub, 0)
+          outer = getattr(self, '_cur_locals', set())
+          self._cur_locals = outer | _locals_of(s)
+          try:
+            s.body = self._block(s.body, nfi, [nfi.key], sub, 0)
+          finally:
+            self._cur_locals = outer
           if sub:
             s._inlined_from = sorted(set(sub))
             inlined.extend(sub)
@@ -200,11 +210,21 @@ class Inliner(object):
       if call is None:
         break
       callee = self._callee(call, fn)
-      res = self._expand(call, callee, fn, stack, inlined, depth)
+      mode = 'value'
+      if call is expr:
+        if isinstance(s, ast.Return):
+          mode = 'return'
+        elif isinstance(s, ast.Expr):
+          mode = 'expr'
+        elif isinstance(s, ast.Assign) and len(s.targets) == 1 and isinstance(s.targets[0], ast.Name):
+          mode = ('assign', s.targets[0].id)
+      res = self._expand(call, callee, fn, stack, inlined, depth, mode)
       if res is None:
         break
       body, ret = res
       pre.extend(body)
+      if mode != 'value':
+        return pre           # the spliced body stands for the whole statement
       expr = _replace(expr, call, ast.copy_location(ast.Name(id=ret, ctx=ast.Load()), call))
       setattr(holder, attr, expr)
     if not pre:
@@ -280,7 +300,7 @@ class Inliner(object):
     return True
 
   # ------------------------------------------------------------------ expansion of one call
-  def _expand(self, call, callee, fn, stack, inlined, depth):
+  def _expand(self, call, callee, fn, stack, inlined, depth, mode='value'):
     self._k += 1
     k = self._k
     saved_parent = getattr(callee.node, '_parent', None)
@@ -336,19 +356,58 @@ class Inliner(object):
           binds.append((p, defaults[p]))
         else:
           return None
+    # names the helper reads from its module must not be captured by locals of the function it is spliced into
+    free = {x.id for x in walk_no_nested(node, include_self=False) if isinstance(x, ast.Name)} - set(rename) - {'self', 'cls'}
+    if free & getattr(self, '_cur_locals', set()):
+      return None
     ret = '__ret%d' % k
+    if isinstance(mode, tuple):
+      ret = mode[1]          # x = helper(...): the helper's result is assigned to x where the helper returned
     body = node.body
     if body and isinstance(body[0], ast.Expr) and isinstance(body[0].value, ast.Constant) and isinstance(body[0].value.value, str):
       body = body[1:]
-    new_body = _tailify(body, ret)
-    if new_body is None:
-      return None       # returns that are not in tail position (inside the helper's own loops, ...): the call stays
+    if mode == 'return':
+      # return helper(...): the helper's own return statements return from the caller just the same
+      new_body = list(body)
+      if not _always_returns(new_body):
+        new_body.append(ast.Return(value=ast.Constant(value=None)))
+    else:
+      new_body = _tailify(body, '__ret%d' % k)
+      if new_body is None:
+        return None       # returns that are not in tail position (inside the helper's own loops, ...): the call stays
+    # a parameter the helper never assigns is replaced by the argument itself when that is a plain name or a constant
+    # (nothing in the spliced body can change the caller's variable); other arguments are bound to a fresh name first
+    subst = {}
+    kept = []
+    for p, a in binds:
+      if p not in stored and isinstance(a, ast.Name):
+        rename[p] = a.id
+      elif p not in stored and isinstance(a, ast.Constant):
+        subst[p] = a
+      else:
+        kept.append((p, a))
+    binds = kept
     for st in new_body:
       for x in ast.walk(st):
         if isinstance(x, ast.Name) and x.id in rename:
           x.id = rename[x.id]
         elif isinstance(x, ast.ExceptHandler) and x.name in rename:
           x.name = rename[x.name]
+    if subst:
+      class _Sub(ast.NodeTransformer):
+        def visit_Name(self, n):
+          if n.id in subst and isinstance(n.ctx, ast.Load):
+            return ast.copy_location(ast.Constant(value=subst[n.id].value), n)
+          return n
+      new_body = [_Sub().visit(st) for st in new_body]
+    tmp = '__ret%d' % k
+    if mode == 'expr':
+      new_body = _drop_result(new_body, tmp)
+    elif isinstance(mode, tuple):
+      for st in new_body:
+        for x in ast.walk(st):
+          if isinstance(x, ast.Name) and x.id == tmp:
+            x.id = ret
     pre = []
     for p, a in binds:
       tgt = rename.get(p, p)
@@ -366,6 +425,21 @@ class Inliner(object):
 
 
 # ---------------------------------------------------------------------- helpers
+
+def _locals_of(defnode):
+  a = defnode.args
+  out = {x.arg for x in a.posonlyargs + a.args + a.kwonlyargs}
+  if a.vararg:
+    out.add(a.vararg.arg)
+  if a.kwarg:
+    out.add(a.kwarg.arg)
+  for x in walk_no_nested(defnode, include_self=False):
+    if isinstance(x, ast.Name) and isinstance(x.ctx, (ast.Store, ast.Del)):
+      out.add(x.id)
+    elif isinstance(x, ast.ExceptHandler) and x.name:
+      out.add(x.name)
+  return out
+
 
 def _clone(node):
   """deep copy of a subtree without following its upward (_parent) link."""
@@ -473,17 +547,20 @@ def _tailify(stmts, ret):
       falls = [h for h in s.handlers if not _always_returns(h.body)]
       if not rest or (not body_falls and not falls):
         # nothing (reachable) follows the try: every piece is in tail position
-        b = _tailify_fall(s.body, ret)
-        oe = _tailify_fall(s.orelse, ret) if s.orelse else []
+        if s.orelse:
+          b = list(s.body)                      # (no returns in the body when there is an else clause, checked above)
+          oe = _tailify(s.orelse, ret)
+        else:
+          b = _tailify(s.body, ret)
+          oe = []
         hs = []
         for h in s.handlers:
-          hb = _tailify_fall(h.body, ret)
+          hb = _tailify(h.body, ret)
           if hb is None:
             return None
           hs.append(ast.copy_location(ast.ExceptHandler(type=h.type, name=h.name, body=hb), h))
         if b is None or oe is None:
           return None
-        out.append(none)
         out.append(ast.copy_location(ast.Try(body=b, handlers=hs, orelse=oe, finalbody=s.finalbody), s))
         return out
       if body_falls and not falls and not _has_return(s.body) and not s.finalbody:
@@ -505,6 +582,37 @@ def _tailify(stmts, ret):
     out.append(s)
   out.append(ast.Assign(targets=[ast.Name(id=ret, ctx=ast.Store())], value=ast.Constant(value=None)))
   return out
+
+
+def _drop_result(stmts, tmp):
+  """the helper's value is not used (expression statement): `tmp = v` becomes `v` (or nothing for names / constants)."""
+  class D(ast.NodeTransformer):
+    def visit_Assign(self, n):
+      if len(n.targets) == 1 and isinstance(n.targets[0], ast.Name) and n.targets[0].id == tmp:
+        if isinstance(n.value, (ast.Name, ast.Constant)):
+          return ast.copy_location(ast.Pass(), n)
+        return ast.copy_location(ast.Expr(value=n.value), n)
+      return n
+
+    def visit_FunctionDef(self, n):
+      return n
+
+  out = [D().visit(st) for st in stmts]
+
+  def prune(block):
+    # drop `pass` statements that are not the only statement of their block
+    keep = [x for x in block if not isinstance(x, ast.Pass)]
+    return keep if keep else block[:1]
+  for st in out:
+    for x in ast.walk(st):
+      for field in ('body', 'orelse', 'finalbody'):
+        b = getattr(x, field, None)
+        if isinstance(b, list) and b and all(isinstance(y, ast.stmt) for y in b):
+          nb = prune(b)
+          if field == 'orelse' and all(isinstance(y, ast.Pass) for y in nb):
+            nb = []
+          setattr(x, field, nb)
+  return [x for x in out if not isinstance(x, ast.Pass)] or []
 
 
 def _count_stmts(stmts):
